@@ -57,7 +57,8 @@ func (r *TokenRule) RunPass(ctx *Context, pass Pass) {
 		nfaCons := r.Expr.NFACons(ctx)
 		nfaCons.E.Accept = true
 		actions := &mode.Actions{
-			Pos: r.Bounds().Begin,
+			Pos:       r.Bounds().Begin,
+			NonGreedy: nfaCons.HasNonGreedy(),
 		}
 		for _, actAST := range r.Actions {
 			act := actAST.GetAction()
